@@ -243,10 +243,15 @@ Le(u, v) == OrdKey(u) = OrdKey(v) \/ Lt(u, v)
 Gt(u, v) == Lt(v, u)
 Ge(u, v) == Le(v, u)
 
-\* ------------------------------------------------------ MultiDict.update (multidict 6.x _update_items)
+\* ------------------------------------------------------ MultiDict.update (multidict 6.2 _update_items)
 \* items, new: sequences of <<key, value>>.  For each new pair: replace the next occurrence of its key
-\* (searching from the position after the last one used for that key), else append; afterwards drop every
-\* occurrence of an updated key that lies at or beyond its last used position.
+\* (searching from the position after the last one used for that key), else append; afterwards "drop tails":
+\* every occurrence of an updated key at or beyond its last used position is deleted.
+\* Dev_MultiDictUpdateIndexShift: the drop-tails loop of multidict 6.2.0 (Python and C implementation alike) compares
+\* the CURRENT index -- already shifted left by earlier deletions -- with positions recorded BEFORE any deletion, so once
+\* one tail has been dropped the tails of every later key survive (a=1&a=2&b=1&b=2 updated with a=x, b=y gives
+\* a=x&b=y&b=2).  With the deviation off the positions are compared unshifted (what the algorithm intends).
+Dev_MultiDictUpdateIndexShift == On
 RECURSIVE UpdStep(_, _, _, _)
 UpdStep(items, new, i, used) ==        \* used: function key -> next start position (1-based), default 1
   IF i > Len(new) THEN <<items, used>>
@@ -258,12 +263,21 @@ UpdStep(items, new, i, used) ==        \* used: function key -> next start posit
           UpdStep([items EXCEPT ![j] = new[i]], new, i + 1, [kk \in DOMAIN used \cup {k} |-> IF kk = k THEN j + 1 ELSE used[kk]])
        ELSE UpdStep(Append(items, new[i]), new, i + 1,
                     [kk \in DOMAIN used \cup {k} |-> IF kk = k THEN Len(items) + 2 ELSE used[kk]])
-UpdatePairs(items, new) ==
+\* the loop as written: i indexes the list being shrunk
+RECURSIVE DropTailsShifted(_, _, _)
+DropTailsShifted(it, i, used) ==
+  IF i > Len(it) THEN it
+  ELSE IF it[i][1] \notin DOMAIN used THEN DropTailsShifted(it, i + 1, used)
+  ELSE IF i >= used[it[i][1]] THEN DropTailsShifted(SubSeq(it, 1, i - 1) \o SubSeq(it, i + 1, Len(it)), i, used)
+  ELSE DropTailsShifted(it, i + 1, used)
+UpdatePairsSeqWith(dev, items, new) ==
   LET r == UpdStep(items, new, 1, << >>)
-      it == r[1] used == r[2]
-      keep == {j \in 1..Len(it) : it[j][1] \notin DOMAIN used \/ j < used[it[j][1]]} IN
-  SelectSeq([j \in 1..Len(it) |-> <<j, it[j]>>], LAMBDA p : p[1] \in keep)
-UpdatePairsSeq(items, new) == LET u == UpdatePairs(items, new) IN [j \in 1..Len(u) |-> u[j][2]]
+      it == r[1] used == r[2] IN
+  IF dev THEN DropTailsShifted(it, 1, used)
+  ELSE LET keep == {j \in 1..Len(it) : it[j][1] \notin DOMAIN used \/ j < used[it[j][1]]}
+           idx == SelectSeq([j \in 1..Len(it) |-> j], LAMBDA j : j \in keep) IN
+       [n \in 1..Len(idx) |-> it[idx[n]]]
+UpdatePairsSeq(items, new) == UpdatePairsSeqWith(Dev_MultiDictUpdateIndexShift, items, new)
 
 \* ------------------------------------------------------------ _encode_host
 \* NOT_REG_NAME on the lower-cased ASCII host: a character outside a-z0-9-._~!$&'()*+,;=% or a '%' not
